@@ -5416,8 +5416,9 @@ write_function_instance(ostream &out, FunctionRemap *remap,
 
     if (!is_cpp_type_legal(orig_type)) {
       // We can't wrap this.  We sometimes get here for default arguments.
-      // Just skip this parameter.
-      continue;
+      // This parameter and all parameters after it take their default value
+      // (passing a later one would shift it into this one's position).
+      break;
     }
 
     // Has this remap been selected to consider optional arguments for this
